@@ -36,6 +36,9 @@ TAILS = [
     ('usermac-comment-arg2', '\\newcommand{\\yt}[2]{(#1)#2.}\n\\newcommand{\\yl}[1]{\\yt{#1 %c\n}{% c\n x}}\n', '\\yl{a}'),
     ('usermac-default', '\\newcommand{\\yl}[2][a long default text]{#1 #2}\n', '\\yl{x}'),
     ('usermac-default-only', '\\newcommand{\\yl}[1][a long default text   here]{#1}\n', '\\yl'),
+    ('usermac-default-ws', '\\newcommand{\\yl}[1][Jane\n          Doe]{#1}\n', '\\yl'),
+    ('usermac-default-verb', '\\newcommand{\\yl}[1][\\verb|verbatim default text|]{#1}\n', '\\yl'),
+    ('usermac-default-ws2', '\\newcommand{\\yl}[2][a\n\n          b]{#1 #2}\n', '\\yl x'),
     ('def-long-body', '\\def\\yl#1{long body #1 of the def macro}\n', '\\yl x'),
     ('gls', '@GLS', '\\gls{ylab}'),
     ('Gls-upper', '@GLS', '\\Gls{ylab}'),
@@ -57,6 +60,9 @@ TAILS = [
     # the same label is referenced again inside a (long) file read afterwards
     ('cref-then-file', '@SED', '\\cref{ylab} and \\crefrange{ylab}{yl2} x \\LTinput{@CREFFILE}'),
     ('cref-file-then-cref', '@SED', '\\LTinput{@CREFFILE} \\cref{ylab}'),
+    ('open-accent-brace', '', "Un caf\\'{"),
+    ('open-accent-brace-foot', '', "A\\footnote{\\'{"),
+    ('open-accent-brace2', '', 'na\\"{'),
     ('open-inline', '', '$x'),
     ('open-display', '', '\\[x'),
     ('open-equation', '', '\\begin{equation}x'),
